@@ -197,6 +197,20 @@ def run(tier, seed, replay):
             lits.append("{{ %s }}" % (("'" + s + "'") if c["fam"] == "str" else s))
         for k in range(0, len(lits), 300):
             groups.append(("literals", [["l%d" % i, t] for i, t in enumerate(lits[k:k + 300])], []))
+        # ---- every expression tree of spec/WxmlExpr.tla (every operator at every operand position of every operator),
+        # in attribute, text and condition position: adjacent operator characters must not fuse in the emitted code
+        eres = vlib.tlc("MCWxmlExpr", workers=6, timeout=900)
+        vlib.tlc_expect_ok(eres, "MCWxmlExpr")
+        ck.add_tlc(eres)
+        exprs = []
+        for n, c in enumerate(eres.cases):
+            t = " ".join(c["toks"])
+            if '"' in t:
+                continue
+            k = n % 3
+            exprs.append('<v a="{{ %s }}"/>' % t if k == 0 else ('{{ %s }}' % t if k == 1 else '<v wx:if="{{ %s }}"/>' % t))
+        for k in range(0, len(exprs), 400):
+            groups.append(("expression trees", [["x%d" % i, t] for i, t in enumerate(exprs[k:k + 400])], []))
         # ---- size sweep
         sizes = [1000, 3000, 20000] if tier == "quick" else [1000, 3000, 20000, 60000, 210000]
         for n in sizes:
@@ -230,11 +244,26 @@ def run(tier, seed, replay):
                 ck.distinct_count += 1
         jobs.append({"id": vc["id"], "arts": arts})
     nres = vlib.run_node("drive_js.js", jobs, timeout=1800)
+    isolated = 0
     for j, r in zip(jobs, nres):
         ck.traces += r["parsed"]
         if r["failures"]:
             label, files, scripts = groups[j["id"] // 2]
             f0 = r["failures"][0]
+            if len(files) > 1 and isolated < 3:
+                # find one file of the group whose own artefacts do not parse
+                isolated += 1
+                sv = vlib.run_vh("tmpl", [{"id": i, "files": [f], "scripts": scripts, "dev": bool(j["id"] % 2), "want": ["art"]} for i, f in enumerate(files)])
+                sj = []
+                for i, x in enumerate(sv):
+                    a = {k: v for k, v in (x.get("art") or {}).items() if isinstance(v, str)}
+                    sj.append({"id": i, "arts": a})
+                for x, y in zip(sj, vlib.run_node("drive_js.js", sj, timeout=900)):
+                    if y["failures"]:
+                        files = [files[x["id"]]]
+                        f0 = y["failures"][0]
+                        r = y
+                        break
             small_files = [[p, (t if len(t) < 2000 else t[:200] + "...(%d chars)" % len(t))] for p, t in files]
             ck.report({"sig": "js-syntax", "label": label, "files": files if sum(len(t) for _, t in files) < 20000 else small_files,
                        "scripts": scripts, "dev": bool(j["id"] % 2), "failures": r["failures"][:4]},
